@@ -24,6 +24,7 @@ func registerC16(names []string) {
 		Stub:        append(append([]string{}, e1.E1Stub...), "wall clock: testing/synctest bubble clock"),
 		Assumptions: []string{"the static clause 'no reachable path consults the wall clock' is decided only on the paths the workloads drive"},
 		QuickRuns:   128, ThoroughRuns: 6000, QuickCap: 110, ThoroughCap: 900,
+		ReplayAttempts: 12, // map-order dependence is random per execution by nature
 		RequiredProbes: append(append([]string{}, e1.C16Probes...), "clock_run_compared"),
 		Generate: func(rng *kernel.RNG, idx int, tier string) *kernel.Plan {
 			if idx%4 != 3 {
